@@ -19,4 +19,8 @@ mf["category"] = cat
 mf["claimed"] = True
 c["manifest"] = mf
 json.dump(c, open(f, "w"), indent=1)
+cl = os.path.join(V, "props", "CLAIMED.txt")
+have = set(open(cl).read().split()) if os.path.exists(cl) else set()
+have.add(pid)
+open(cl, "w").write("\n".join(sorted(have)) + "\n")
 subprocess.check_call([os.path.join(V, "tools", "mkmanifest.py")])
